@@ -15,13 +15,24 @@
                   (Also used for size-N in trace validation: lo = hi = N.)
 
    Bytes are not modelled: chunk i is the input range starting at the sum of the previous
-   lengths (the harness compares the bytes of every chunk with that range and logs `eq`). *)
+   lengths (the harness compares the bytes of every chunk with that range and logs `eq`).
+
+   Sessions.  A consumer (a DAG builder) keeps the chunks it was given while it goes on calling
+   NextBytes and while it chunks FURTHER streams with other splitter instances of any kind
+   (NewRun).  An emitted chunk is a value handed over to the consumer: nothing a splitter --
+   this one or another one -- does later may change it.  heldN / heldB count the chunks (and
+   their bytes) of the earlier runs of the session that the consumer still holds, sessL is the
+   total input length of those runs; Recheck is the consumer re-reading EVERYTHING it holds
+   (earlier runs' chunks and the current run's): the only observation the property allows is
+   "all of them still equal the input ranges they were cut from", so that the retained chunks
+   of every finished run still concatenate to its input (HeldLossless) at any later time. *)
 EXTENDS Integers, Sequences, FiniteSets, TLC, Json, ChunkSpec
 
 CONSTANTS MaxL,        \* input lengths 0..MaxL
           Cfgs,        \* set of [kind, lo, hi] : advertised minimum / maximum chunk size
           ZeroBudget,  \* how many (0, nil) reads the reader may interleave per run
-          Limit        \* ChunkSizeLimit
+          Limit,       \* ChunkSizeLimit
+          MaxHeld      \* bound on the chunks carried over from earlier runs of a session (model checking only)
 
 VARIABLES cfg,      \* [kind, lo, hi]
           L,        \* input length
@@ -33,8 +44,12 @@ VARIABLES cfg,      \* [kind, lo, hi]
           eofNow,   \* the running ReadFull has seen io.EOF
           serr,     \* sizeSplitterv2.err is set (sticky EOF)
           pc,       \* "idle" (between NextBytes calls) | "reading" (inside one)
-          ends      \* number of NextBytes calls that returned io.EOF
-vars == <<cfg, L, rpos, buf, emitted, zeros, reof, eofNow, serr, pc, ends>>
+          ends,     \* number of NextBytes calls that returned io.EOF
+          heldN,    \* session: chunks of earlier runs (other splitter instances) the consumer still holds
+          heldB,    \* session: total length of those chunks
+          sessL     \* session: total input length of those earlier (finished) runs
+sess == <<heldN, heldB, sessL>>
+vars == <<cfg, L, rpos, buf, emitted, zeros, reof, eofNow, serr, pc, ends, sess>>
 
 RECURSIVE Sum(_)
 Sum(s) == IF s = <<>> THEN 0 ELSE Head(s) + Sum(Tail(s))
@@ -43,6 +58,7 @@ Min2(a, b) == IF a < b THEN a ELSE b
 Init == /\ cfg \in Cfgs /\ L \in 0..MaxL
         /\ rpos = 0 /\ buf = 0 /\ emitted = <<>> /\ zeros = 0
         /\ reof = FALSE /\ eofNow = FALSE /\ serr = FALSE /\ pc = "idle" /\ ends = 0
+        /\ heldN = 0 /\ heldB = 0 /\ sessL = 0
 
 (* ---- the reader (environment) ------------------------------------------------------- *)
 \* legal answers (k, eof) of reader.Read(p) with len(p) = want, want >= 1
@@ -63,7 +79,7 @@ ReadEffect(k, eof) ==
 Call == /\ pc = "idle" /\ ends < 2
         /\ IF serr THEN ends' = ends + 1 /\ UNCHANGED <<pc, eofNow>>
                    ELSE pc' = "reading" /\ eofNow' = FALSE /\ UNCHANGED ends
-        /\ UNCHANGED <<cfg, L, rpos, buf, emitted, zeros, reof, serr>>
+        /\ UNCHANGED <<cfg, L, rpos, buf, emitted, zeros, reof, serr, sess>>
 
 \* the amount the splitter asks for in its next reader.Read
 Want == IF cfg.kind = "size" THEN cfg.hi - buf ELSE 0
@@ -72,7 +88,7 @@ Want == IF cfg.kind = "size" THEN cfg.hi - buf ELSE 0
 Read(k, eof) ==
     /\ pc = "reading" /\ cfg.kind = "size" /\ ~eofNow /\ buf < cfg.hi
     /\ ReaderAnswer(Want, k, eof) /\ ReadEffect(k, eof)
-    /\ UNCHANGED <<cfg, L, emitted, serr, pc, ends>>
+    /\ UNCHANGED <<cfg, L, emitted, serr, pc, ends, sess>>
 
 \* what the property allows for a chunk of n bytes cut from b buffered bytes
 \* (the previously emitted chunk is no longer the last one, so it must respect lo..hi)
@@ -93,7 +109,7 @@ EmitAfter(k, n) ==
     /\ buf' = buf + k - n /\ rpos' = rpos + k
     /\ serr' = (serr \/ (cfg.kind = "size" /\ n < cfg.hi))
     /\ pc' = "idle"
-    /\ UNCHANGED <<cfg, L, zeros, reof, eofNow, ends>>
+    /\ UNCHANGED <<cfg, L, zeros, reof, eofNow, ends, sess>>
 Emit(n) == EmitAfter(0, n)
 
 \* NextBytes returns io.EOF: nothing is buffered and the input is exhausted
@@ -102,7 +118,7 @@ EndAfter(k) ==
     /\ rpos + k = L /\ buf + k = 0
     /\ cfg.kind = "size" => eofNow
     /\ ends' = ends + 1 /\ pc' = "idle" /\ rpos' = rpos + k
-    /\ UNCHANGED <<cfg, L, buf, emitted, zeros, reof, eofNow, serr>>
+    /\ UNCHANGED <<cfg, L, buf, emitted, zeros, reof, eofNow, serr, sess>>
 End == EndAfter(0)
 
 \* the abstract machine: several reader answers aggregated (trace validation logs rpos per event)
@@ -111,16 +127,39 @@ ReadMany(k, eof) ==
     /\ k \in 0..(L - rpos) /\ eof \in BOOLEAN /\ (eof => rpos + k = L) /\ (reof => eof /\ k = 0)
     /\ (k = 0 /\ ~eof) => zeros < ZeroBudget
     /\ ReadEffect(k, eof)
-    /\ UNCHANGED <<cfg, L, emitted, serr, pc, ends>>
+    /\ UNCHANGED <<cfg, L, emitted, serr, pc, ends, sess>>
+
+(* ---- sessions: further splitter instances while earlier chunks are retained ------------- *)
+\* the run-local state of a freshly built splitter instance over a fresh reader
+FreshRun == /\ rpos' = 0 /\ buf' = 0 /\ emitted' = <<>> /\ zeros' = 0 /\ reof' = FALSE
+            /\ eofNow' = FALSE /\ serr' = FALSE /\ pc' = "idle" /\ ends' = 0
+\* the consumer is done with the current instance (it reported io.EOF, or it was never used) and
+\* either keeps all its chunks together with the older ones, or drops everything it holds
+Retain(drop) ==
+    /\ pc = "idle" /\ (ends > 0 \/ emitted = <<>>)
+    /\ IF drop THEN heldN' = 0 /\ heldB' = 0 /\ sessL' = 0
+               ELSE /\ heldN + Len(emitted) <= MaxHeld
+                    /\ heldN' = heldN + Len(emitted)
+                    /\ heldB' = heldB + Sum(emitted)
+                    /\ sessL' = sessL + (IF ends > 0 THEN L ELSE 0)
+\* another splitter instance (any accepted configuration c) is built over an input of len bytes
+NewRun(c, len, drop) == Retain(drop) /\ cfg' = c /\ L' = len /\ FreshRun
+\* the consumer re-reads every chunk it holds (earlier runs' and the current run's, also in the
+\* middle of a NextBytes of anybody) and finds n chunks / b bytes still equal to the input ranges
+\* they were cut from.  Allowed: all of them.
+Recheck(n, b) == /\ n = heldN + Len(emitted) /\ b = heldB + Sum(emitted)
+                 /\ UNCHANGED vars
 
 Next == \/ Call
         \/ \E k \in 0..MaxL, eof \in BOOLEAN : Read(k, eof) \/ ReadMany(k, eof)
         \/ \E n \in 1..MaxL : Emit(n)
         \/ End
+        \/ \E c \in Cfgs, len \in 0..MaxL, drop \in BOOLEAN : NewRun(c, len, drop)
 Spec == Init /\ [][Next]_vars
 
 (* ---- the property -------------------------------------------------------------------- *)
 TypeOK == /\ rpos \in 0..L /\ buf \in 0..L /\ pc \in {"idle", "reading"} /\ ends \in 0..2
+          /\ heldN \in 0..MaxHeld /\ heldB \in Nat /\ sessL \in Nat
           /\ \A i \in 1..Len(emitted) : emitted[i] \in 1..L
 Conservation     == Sum(emitted) + buf = rpos                 \* nothing invented, nothing dropped on the way
 Lossless         == ends > 0 => Sum(emitted) = L              \* io.EOF only after the whole input was emitted
@@ -131,6 +170,10 @@ MinMaxRespected  == \A i \in 1..Len(emitted) : i < Len(emitted) => (cfg.lo <= em
 SizeExact        == cfg.kind = "size" =>
                        /\ \A i \in 1..Len(emitted) : emitted[i] = Min2(cfg.hi, L - (i - 1) * cfg.hi)
                        /\ ends > 0 => Len(emitted) = (L + cfg.hi - 1) \div cfg.hi
+\* the chunks retained from the finished runs of a session still add up to exactly their inputs
+\* (with Recheck: and still ARE those inputs), none of them empty or above the limit
+HeldLossless     == heldB = sessL
+HeldBounded      == heldN <= heldB /\ heldB <= heldN * Limit
 \* the size machine never asks the reader for more than it will emit next
 NoOverRead       == cfg.kind = "size" => buf <= cfg.hi
 =============================================================================
